@@ -14,4 +14,7 @@ C20_NoPanicRow         == R.kind = "robust" => R.panics = <<>>
 Grows(s) == s[2] - s[1] > Slack /\ s[3] - s[2] > Slack
 C20_NoGoroutineLeakRow == R.kind = "robust" => ~Grows(R.g)
 C20_NoConnectionLeakRow == R.kind = "robust" => ~Grows(R.c)
+\* calls that FAIL must not leave goroutines behind either: the forced read-only attempt of a fencing node, repeated
+\* while a commit hangs for good (its per-second query killer must stop when the attempt gives up)
+C20_NoLeakOnErrorPath == R.kind = "errpath" => (R.failed = R.calls /\ R.g1 <= R.g0 + 1)
 =============================================================================
